@@ -14,7 +14,7 @@ from props import c02
 
 RULE_FED = ("fedlab part: (a) two hand-written federations -- an interface whose implementers are entities extended by two other "
             "subgraphs with a @requires field, a shareable field and a second key (27 operations x 12 protected sets), and a "
-            "federation with mutation root fields in two subgraphs (9 operations x 4 protected sets); the interface federation also "
+            "federation with mutation root fields in two subgraphs (16 operations x 8 protected sets: protected / denied mutation root fields, two and three root fields executed serially, a root field returning an entity with nested query-typed entity fetches that carry two or three protected root fields); the interface federation also "
             "has object- and list-valued interface fields (one covariant) selected bare and under `... on T`, and three @defer "
             "operations (for those only sentinel_absent over all flushed frames, fetch_gate on the request log and "
             "collector_complete on the questions asked are evaluated) -- and (b) generated "
@@ -157,7 +157,7 @@ def run_fed(chk):
     exe, model = b
     quick = chk.tier == "quick"
     maxd = 64 if quick else 200
-    ncfg = 70 if quick else 1500
+    ncfg = 60 if quick else 1500
     for i, cmd in enumerate(_corpus_cmds(exe)):
         bb = vlib.run_batch(chk, "%s %s -maxd %d -out {out}" % (exe, cmd, maxd), model, "fed_corpus%d" % i, timeout=3000)
         if bb:
